@@ -632,6 +632,10 @@ func init() {
 			c := e.evalB(n.Args[0])
 			a := e.eval(n.Args[1])
 			b := e.eval(n.Args[2])
+			if a.T != nil && isBool(a.T) && len(a.C) == 1 {
+				// boolean ite as two implications: keeps quantifiers out of ite-terms
+				return boolVal(and(implies(c, a.C[0]), implies(not(c), b.C[0])))
+			}
 			out := Val{T: a.T, Sorts: a.Sorts, C: make([]string, len(a.C))}
 			for k := range a.C {
 				out.C[k] = ite(c, a.C[k], b.C[k])
